@@ -1299,6 +1299,40 @@ def install(w):
             return mk_err(Agg("struct", "PoisonError", [g]))
         return mk_ok(g)
 
+    @reg("Mutex::try_lock")
+    def mutex_try_lock(w, it, a, c):
+        w.acc(("graph",), True)
+        r = a[0]
+        m = it.load(r.cell, r.path)
+        if m.fields[1]:
+            return mk_err(mk_enum("TryLockError", "WouldBlock"))
+        m.fields[1] = True
+        g = MutexGuard(r)
+        if m.fields[2]:
+            return mk_err(mk_enum("TryLockError", "Poisoned", Agg("struct", "PoisonError", [g])))
+        return mk_ok(g)
+
+    @reg("RwLock::new")
+    def rwlock_new(w, it, a, c):
+        return Agg("struct", "Mutex", [a[0], False, False])
+
+    @reg("RwLock::read", "RwLock::write")
+    def rwlock_lock(w, it, a, c):
+        return mutex_lock(w, it, a, c)
+
+    @reg("Mutex::is_poisoned", "RwLock::is_poisoned")
+    def mutex_is_poisoned(w, it, a, c):
+        return bool(it.load(a[0].cell, a[0].path).fields[2])
+
+    @reg("Mutex::clear_poison", "RwLock::clear_poison")
+    def mutex_clear_poison(w, it, a, c):
+        it.load(a[0].cell, a[0].path).fields[2] = False
+        return UNIT
+
+    @reg("PoisonError::into_inner")
+    def poison_into_inner(w, it, a, c):
+        return a[0].fields[0]
+
     class HMap(ModelObj):
         """HashMap<u64, V> with concrete keys"""
         type_name = "HashMap"
@@ -1858,6 +1892,36 @@ def install(w):
         ch = deref(it, a[0]).chan
         w.acc(ch.key(), False)
         return len(ch.buf) == 0
+
+    @reg("tokio::sync::mpsc::Receiver::recv_many")
+    def rx_recv_many(w, it, a, c):
+        rx = deref(it, a[0])
+        vec = a[1]
+        limit = a[2].v
+
+        class RecvManyFut(ModelObj):
+            type_name = "RecvManyFut"
+
+            def poll(self_, it_, cx_):
+                n = 0
+                while n < limit:
+                    r = rx.poll_recv(it_)
+                    if r.variant == "Pending":
+                        break
+                    if r.fields[0].variant == "None":
+                        break
+                    deref(it_, vec).items.append(r.fields[0].fields[0])
+                    n += 1
+                if n == 0:
+                    r = rx.poll_recv(it_)
+                    if r.variant == "Pending":
+                        return r
+                    if r.fields[0].variant == "None":
+                        return mk_ready(IntV(0, 64))
+                    deref(it_, vec).items.append(r.fields[0].fields[0])
+                    n = 1
+                return mk_ready(IntV(n, 64))
+        return RecvManyFut()
 
     @reg("tokio::sync::mpsc::Receiver::max_capacity")
     def rx_max_capacity(w, it, a, c):
